@@ -136,3 +136,38 @@ def position_why(case, rr, why_regex=None, doc_regex=None, token=None):
         if token and p.get("token") != token:
             return False
     return not doc_regex or bool(re.search(doc_regex, obs.get("doc", ""), re.S))
+
+
+@matcher
+def c09_whitespace_oscillation(case, rr, doc_regex=None, left_rules=None):
+    """fix is not idempotent, but the first and second result differ only in spaces / final
+    newlines, the document has the stated shape, and fix-capable failures that remain belong
+    to the stated rules."""
+    import re
+
+    obs = rr.get("observed") or {}
+    a, b = obs.get("after_first"), obs.get("after_second")
+    if a is None or b is None:
+        return False
+    doc = obs.get("doc", "")
+    if doc_regex and not re.search(doc_regex, doc, re.S):
+        return False
+    strip = lambda s: s.replace(" ", "").replace("\t", "").rstrip("\n")
+    if strip(a) != strip(b):
+        return False
+    allowed = set(left_rules or [])
+    for v in obs.get("violations") or []:
+        if v["kind"] == "fixable-failure-left":
+            for f in v["detail"]["left"]:
+                if f[2] not in allowed:
+                    return False
+        elif v["kind"] not in ("second-fix-changes-file", "second-fix-reports-fixed"):
+            return False
+    return True
+
+
+@matcher
+def c10_empty_file(case, rr):
+    obs = rr.get("observed") or {}
+    v = obs.get("violations") or []
+    return obs.get("doc") == "" and obs.get("after_fix") == "\n" and all(x["kind"] == "changed-without-fixable-failure" for x in v)
